@@ -1,11 +1,13 @@
 #!/usr/bin/env python3
-"""Try the registered checks against one seeded breaker.
+"""Try the registered checks against one seeded breaker WITHOUT touching /repo.
 
-    seeded_eval.py <patch.diff> <demo.py> [--checks C01,C06,...] [--tier quick] [--seed 1]
+    seeded_eval.py <patch.diff> <demo.py> [--checks C01,C06,...] [--tier quick] [--seed 1] [--skip-suite]
 
-Applies the patch to /repo, confirms the demo fails and the unedited suite still passes, runs the checks
-(replay and evidence output redirected to a scratch dir), reverts /repo and confirms the demo passes again.
-Prints a JSON summary. /repo is always reverted, also on errors.
+A scratch git worktree of /repo's HEAD is created under /root/scratch, the patch is applied there, the demo
+(must fail) and the unedited suite (must pass) are run against it, the checks are run with VERIF_REPO
+pointing at it (replay / evidence output redirected into the scratch dir), and the worktree is removed.
+The demo is also run against the unchanged /repo (must pass). Prints a JSON summary.
+(The registered checks themselves always test /repo's working tree; VERIF_REPO is only for this tool.)
 """
 import argparse
 import json
@@ -32,27 +34,27 @@ def main():
     ap.add_argument("--seed", default="1")
     ap.add_argument("--skip-suite", action="store_true")
     args = ap.parse_args()
-    out = {"patch": args.patch}
-    if sh("git -C /repo status --porcelain").stdout.strip():
-        print("refusing: /repo is not clean", file=sys.stderr)
-        return 2
-    chk = sh(f"git -C /repo apply --check {args.patch}")
-    if chk.returncode:
-        out["error"] = "patch does not apply: " + chk.stderr[:300]
-        print(json.dumps(out, indent=1))
-        return 1
-    scratch = tempfile.mkdtemp(prefix="seeded-eval-")
+    patch, demo = os.path.abspath(args.patch), os.path.abspath(args.demo)
+    out = {"patch": patch}
+    os.makedirs("/root/scratch", exist_ok=True)
+    work = tempfile.mkdtemp(prefix="seeded-eval-", dir="/root/scratch")
+    repo = os.path.join(work, "repo")
     try:
-        sh(f"git -C /repo apply {args.patch}")
-        env = dict(os.environ, PYTHONPATH="/repo", PYTHONDONTWRITEBYTECODE="1")
-        d = sh([PY, "-B", args.demo], env=env, cwd=scratch)
+        sh(f"git -C /repo worktree add -q --detach {repo} HEAD")
+        ap_ = sh(f"git -C {repo} apply {patch}")
+        if ap_.returncode:
+            out["error"] = "patch does not apply: " + ap_.stderr[:300]
+            print(json.dumps(out, indent=1))
+            return 1
+        env = dict(os.environ, PYTHONPATH=repo, PYTHONDONTWRITEBYTECODE="1")
+        d = sh([PY, "-B", demo], env=env, cwd=work)
         out["demo_with_change"] = {"rc": d.returncode, "tail": (d.stdout + d.stderr)[-300:]}
         if not args.skip_suite:
-            t = sh(f"cd /repo && {PY} -m pytest -q -p no:cacheprovider 2>&1 | tail -1")
+            t = sh(f"cd {repo} && PYTHONPATH={repo} {PY} -m pytest -q -p no:cacheprovider 2>&1 | tail -1")
             out["suite_with_change"] = t.stdout.strip()
         results = {}
-        env2 = dict(os.environ, VERIF_REPLAY_OUT=os.path.join(scratch, "replays"), VERIF_EVIDENCE_OUT=os.path.join(scratch, "ev"),
-                    VERIF_SEED=args.seed)
+        env2 = dict(os.environ, VERIF_REPO=repo, VERIF_REPLAY_OUT=os.path.join(work, "replays"),
+                    VERIF_EVIDENCE_OUT=os.path.join(work, "ev"), VERIF_SEED=args.seed)
         for pid in [c for c in args.checks.split(",") if c]:
             r = sh([PY, "/verif/run.py", pid, args.tier], env=env2, cwd="/verif")
             buckets = []
@@ -61,15 +63,15 @@ def main():
                     buckets.append(json.load(open(m.group(1)))["bucket"])
                 except Exception:  # pylint: disable=broad-except
                     buckets.append("?")
-            results[pid] = {"rc": r.returncode, "buckets": buckets, "summary": r.stdout.strip().split("\n")[-1][-160:],
-                            "stderr": r.stderr[-300:] if r.returncode == 2 else ""}
+            results[pid] = {"rc": r.returncode, "buckets": sorted(set(buckets)), "summary": r.stdout.strip().split("\n")[-1][-160:],
+                            "stderr": r.stderr[-400:] if r.returncode == 2 else ""}
         out["checks"] = results
     finally:
-        sh("git -C /repo checkout -- .")
-        shutil.rmtree(scratch, ignore_errors=True)
+        sh(f"git -C /repo worktree remove --force {repo}")
+        shutil.rmtree(work, ignore_errors=True)
     env = dict(os.environ, PYTHONPATH="/repo", PYTHONDONTWRITEBYTECODE="1")
-    d = sh([PY, "-B", args.demo], env=env)
-    out["demo_reverted"] = {"rc": d.returncode, "tail": (d.stdout + d.stderr)[-200:]}
+    d = sh([PY, "-B", demo], env=env)
+    out["demo_unchanged_repo"] = {"rc": d.returncode, "tail": (d.stdout + d.stderr)[-200:]}
     print(json.dumps(out, indent=1))
     return 0
 
